@@ -206,3 +206,78 @@ def check_row_sites(prog: Program, rep, rule: str) -> None:
             rep.fail(rule, mod.path, call.lineno, fq, f'{key}:spin',
                      f'{site}: spin drift argument is {norm(s)}; expected self.spin_drift of the row time '
                      f'(or of the loop time within the same step)')
+
+
+class LimitBlock:
+    """The statements of the loop body that decide on the termination limits: everything from the statement after
+    the last update of the state (time, position, velocity, reported speed) to the end of the body.  ``raises`` are
+    the `raise RangeError(...)` statements in it, ``tests`` the CFG test nodes they are control dependent on
+    (loop head excluded), ``first`` the one of those that dominates the others."""
+
+    def __init__(self, F: IntegrateFacts):
+        from ..cfg import defs_of
+        body = F.loop.body
+        self.raises = [n for n in ast.walk(F.loop) if isinstance(n, ast.Raise) and isinstance(n.exc, ast.Call)
+                       and norm(n.exc.func) == 'RangeError']
+        if not self.raises:
+            raise AnalysisError('_integrate: no `raise RangeError(...)` in the integration loop')
+        self.site = next((c for c in F.row_calls if any(self._stmt_index(body, c) == self._stmt_index(body, r)
+                                                        or self._stmt_index(body, c) is not None
+                                                        and self._stmt_index(body, c) <= self._stmt_index(body, r)
+                                                        for r in self.raises)
+                          and F.cfg.node_of(c) is not None and self._after_updates(F, c)), None)
+        speed = None
+        if self.site is not None:
+            a = F.row_args(self.site)
+            speed = norm(a['velocity']) if 'velocity' in a else None
+        self.speed_name = speed
+        last_def = -1
+        for i, s_ in enumerate(body):
+            dn = set()
+            for sub_ in ast.walk(s_):
+                cn = F.cfg.node_of(sub_) if isinstance(sub_, ast.stmt) else None
+                if cn is not None and cn.ast is sub_:
+                    dn |= set(defs_of(cn))
+            if dn & {F.t, F.P, F.V, speed}:
+                last_def = i
+        self.start = last_def + 1
+        self.stmts = body[self.start:]
+        if not any(r is x for r in self.raises for st in self.stmts for x in ast.walk(st)):
+            raise AnalysisError('_integrate: the limit check does not follow the last state update of the step')
+        cd = F.cfg.control_dependence()
+        tests = set()
+        todo = [F.cfg.node_of(r).id for r in self.raises if F.cfg.node_of(r) is not None]
+        seen = set()
+        while todo:
+            cur = todo.pop()
+            if cur in seen:
+                continue
+            seen.add(cur)
+            for t, _l in cd[cur]:
+                n = F.cfg.nodes[t]
+                if n is F.loop_head or not F.in_loop(n):
+                    continue
+                if n.ast is not None and any(n.ast is x or F._inside(n.ast, st) for st in self.stmts for x in [st]):
+                    tests.add(t)
+                    todo.append(t)
+        self.tests = tests
+        dom = F.cfg.dominators()
+        self.first = None
+        for t in tests:
+            if all(t in dom[o] for o in tests):
+                self.first = F.cfg.nodes[t]
+        if self.first is None:
+            raise AnalysisError('_integrate: the limit tests have no single entry test')
+
+    @staticmethod
+    def _stmt_index(body, node):
+        for i, st in enumerate(body):
+            if any(x is node for x in ast.walk(st)):
+                return i
+        return None
+
+    @staticmethod
+    def _after_updates(F, call) -> bool:
+        # the row site that belongs to the limit block is the in-loop one that is not fed by should_record
+        a = F.row_args(call)
+        return all(isinstance(a.get(k), ast.Name) for k in ('time', 'range_vector', 'velocity_vector')) and F._inside(call, F.loop)
